@@ -57,7 +57,7 @@ def w8_w9(prog, ctx):
         ctx.inconclusive("W8", "created entries get the section name the reader would give them", "", str(e))
     cp = prog.fn("cpy_file_entry")
     ctx.touch(cp)
-    qs = [(rhs, st) for lhs, rhs, st, kind in query.stores(cp) if render(lhs).endswith(".quotes") and rhs is not None]
+    qs = [(rhs, st) for lhs, rhs, st, kind in query.stores(cp) if (lhs.strip().k == "MemberExpr" and lhs.strip().j.get("member") == "quotes" and lhs.strip().j.get("rec") == "file_entry") and rhs is not None]
     if not qs:
         ctx.inconclusive("W9", "a value and its quotes flag travel together", cp.where, "cpy_file_entry does not set `quotes`")
         return
@@ -391,7 +391,7 @@ def run(prog, ctx):
     else:
         ctx.fail("W3", "the reader records the first delimiter as the object's tag", (ds[0] if ds else rf).where, "stores %s" % [render(s) for s in ds], key="reader-delimiter")
     cs = [st for lhs, rhs, st, kind in query.stores(gate) if render(lhs) == "(*key_file)->comment"]
-    vals = sorted(render(s.children[1]) for s in cs)
+    vals = sorted(("'#'" if (s.children[1].const_value() == ord("#") or render(s.children[1]) == '"#"[0]') else render(s.children[1])) for s in cs)
     reb = [st for lhs, rhs, st, kind in query.stores(gate) if render(lhs) == "comment" and rhs is not None and rhs.string_value() == "#"]
     reb_ok = False
     for st in reb:
@@ -462,7 +462,7 @@ def run(prog, ctx):
     L = parser.landmarks(prog)
     parser.delimiter_membership_rule(prog, ctx, "W10", L)
     st_fn = L.store_fn
-    qs = [s for lhs, rhs, s, kind in query.stores(st_fn) if render(lhs).endswith(".quotes") and not query.is_slot_init(s)]
+    qs = [s for lhs, rhs, s, kind in query.stores(st_fn) if (lhs.strip().k == "MemberExpr" and lhs.strip().j.get("member") == "quotes" and lhs.strip().j.get("rec") == "file_entry") and not query.is_slot_init(s)]
     if qs and all(render(s.children[1]) == "quotes" for s in qs):
         ctx.ok("W4", "store() keeps the quotes flag it is given", qs[0].where, render(qs[0]))
     else:
